@@ -483,7 +483,7 @@ func Run(ctx *core.Ctx) {
 	for _, f := range faultKinds {
 		scs = append(scs, scenario{initial: "empty", faults: []string{f}, big: true})
 	}
-	n := ctx.Pick(len(scs)+6, 160)
+	n := ctx.Pick(len(scs)+25, 160)
 	for len(scs) < n {
 		r := ctx.Rng
 		in := inits[r.Intn(len(inits))]
